@@ -289,6 +289,9 @@ func GenWorld(seed uint64, pf Profile) *WorldSpec {
 	}
 	// nodes
 	nn := r.Range(1, 5)
+	if pf.Preemption {
+		nn = r.Range(1, 3)
+	}
 	hasGPU := r.Bool(0.4)
 	for i := 0; i < nn; i++ {
 		cap := Res{"vcore": int64(r.Range(4, 16)), "memory": int64(r.Range(4, 16))}
